@@ -222,6 +222,17 @@ def c03(mon, s):
                 continue                                    # the documented "not provided" sentinel
             mon.eq('user-component-used', float(getattr(ec, attr).value), supplied, rel=1e-12,
                    mechanism='C03/user-fixed-component-not-used:' + attr, which=pname, supplied=supplied)
+    # ---- "surface plant including end-use equipment": with a correlated plant cost the reported plant figure is the
+    # direct-use part (250 $/kWth of peak extracted heat x 1.15 contingency x 1.12 indirect x adjustment factor) plus the
+    # reported end-use equipment figure (absorption chiller, heat pump, peaking boiler)
+    if eu == 2 and not sbt and pt in (5, 6, 7) and not ec.ccplantfixed.Valid and not ec.totalcapcost.Valid \
+            and cfg['plant'] in ('SurfacePlantAbsorptionChiller', 'SurfacePlantHeatPump', 'SurfacePlantDistrictHeating'):
+        attr = {5: 'chillercapex', 6: 'heatpumpcapex', 7: 'peakingboilercost'}[pt]
+        if ec.has(attr) and np.ndim(getattr(ec, attr).value) == 0:
+            equip = float(getattr(ec, attr).value)
+            direct = 1.12 * 1.15 * float(ec.ccplantadjfactor.value) * 250e-6 * float(np.max(np.asarray(sp.HeatExtracted.value, dtype=float))) * 1000.0
+            mon.eq('plant-includes-end-use-equipment', comp['Cplant'], direct + equip, rel=1e-9, abs_=1e-12,
+                   mechanism='C03/surface-plant-cost-does-not-include-end-use-equipment:' + attr, equipment=equip, direct_use_part=direct)
     # ---- wellfield
     c1p, c1i = float(ec.cost_one_production_well.value), float(ec.cost_one_injection_well.value)
     lat = float(ec.cost_lateral_section.value) if ec.has('cost_lateral_section') else 0.0
